@@ -142,3 +142,26 @@ m("c12-feasibility-ge", ["C12"], GEN, "        if max_size * K > p:", "        i
 m("c12-replace-within-intervention", ["C12"], GEN, "            intervention = list(rng.choice(targets, size=sizes[i], replace=False))", "            intervention = list(rng.choice(targets, size=sizes[i], replace=sizes[i] > 2))")
 m("c12-pool-not-shrunk", ["C12"], GEN, "            remaining_targets -= set(intervention)\n", "            remaining_targets -= set(intervention[:1])\n")
 m("c12-max-size-check-dropped", ["C12"], GEN, "    if max_size > p:", "    if max_size > p and replace:")
+
+# ---- C20
+NO = "sempler/noise.py"
+m("c20-normal-var-as-sd", ["C20", "C04"], NO, "np.random.normal(mean, var**0.5, n)", "np.random.normal(mean, var, n)")
+m("c20-uniform-lo-plus-hi", ["C20"], NO, "np.random.uniform(lo, hi, n)", "np.random.uniform(lo, lo + hi, n)")
+m("c20-laplace-half-scale", ["C20"], NO, "np.random.laplace(mean, scale, n)", "np.random.laplace(mean, scale / 2, n)")
+m("c20-zero-scalar", ["C20"], NO, "    return lambda n: np.zeros(n)", "    return lambda n: 0.0")
+m("c20-laplace-as-normal", ["C20"], NO, "np.random.laplace(mean, scale, n)", "np.random.normal(mean, scale * 2**0.5, n)", note="right mean and variance, wrong law")
+m("c20-normal-own-generator", ["C20", "C13"], NO, "    return lambda n: np.random.normal(mean, var**0.5, n)", "    rng = np.random.default_rng()\n    return lambda n: rng.normal(mean, var**0.5, n)", note="right law, not reproducible after np.random.seed")
+m("c20-null-returns-mean", ["C20"], "sempler/functions.py", "    return 0", "    return 0 if not args or not hasattr(args[0], 'shape') or args[0].shape[1] == 0 else 1e-9")
+m("c20-normal-tiled", ["C20"], NO, "    return lambda n: np.random.normal(mean, var**0.5, n)", "    return lambda n: np.resize(np.random.normal(mean, var**0.5, max(1, (n + 1) // 2)), n)", note="right marginal law, draws repeated: not i.i.d.")
+
+# ---- C04
+m("c04-nd-half-covariance", ["C04"], ND, "        return np.random.multivariate_normal(self.mean, self.covariance, size=n)", "        return np.random.multivariate_normal(self.mean, self.covariance / 2, size=n)")
+m("c04-nd-diagonal-only", ["C04"], ND, "        return np.random.multivariate_normal(self.mean, self.covariance, size=n)", "        return np.random.multivariate_normal(self.mean, np.diag(np.diag(self.covariance)), size=n)")
+m("c04-nd-tiled-rows", ["C04"], ND, "        return np.random.multivariate_normal(self.mean, self.covariance, size=n)",
+  "        return np.resize(np.random.multivariate_normal(self.mean, self.covariance, size=max(1, (n + 1) // 2)), (n, self.p))", note="right law of each row, rows repeated: not i.i.d.")
+m("c04-nd-ignores-mean", ["C04"], ND, "        return np.random.multivariate_normal(self.mean, self.covariance, size=n)", "        return np.random.multivariate_normal(np.zeros(self.p), self.covariance, size=n)")
+m("c04-nd-5pct-inflated", ["C04"], ND, "        return np.random.multivariate_normal(self.mean, self.covariance, size=n)", "        return np.random.multivariate_normal(self.mean, self.covariance * 1.08, size=n)", note="8 % variance inflation: at the detection limit of the quick tier")
+m("c04-lganm-sample-observational-mean", ["C04"], "sempler/lganm.py", "        if not population:\n            return distribution.sample(n, random_state=random_state)",
+  "        if not population:\n            distribution = NormalDistribution(np.linalg.inv(np.eye(self.p) - self.W.T) @ self.means, covariance)\n            return distribution.sample(n, random_state=random_state)", note="finite samples use the observational mean; the population object is right")
+m("c04-anm-noise-iv-keeps-mean", ["C04"], "sempler/anm.py", "                    noise = noise_interventions[i](n)\n", "                    noise = noise_interventions[i](n)\n                    noise = noise - noise.mean() + self.noise_distributions[i](n).mean() if n > 2 else noise\n", note="noise intervention keeps the original noise mean")
+m("c04-point-mass-jitter", ["C04"], "sempler/lganm.py", "        covariance = A @ np.diag(variances) @ A.T\n", "        covariance = A @ np.diag(variances) @ A.T\n        covariance = covariance + (1e-4 * np.eye(self.p) if not population else 0)\n", note="regularises the covariance before sampling: point masses are no longer constants")
